@@ -302,7 +302,7 @@ def graph_cases(ctx, c, terms, refs):
 def run_values(ctx, hx, dist):
     q = ctx.quick()
     n = 1500 if q else 40000
-    ncoq = 130 if q else 2500
+    ncoq = 50 if q else 2500
     cases = ctx.jsonl([hx, "values", "-seed", str(ctx.seed), "-n", str(n), "-coq", str(ncoq), "-graphs", "20" if q else "400"], timeout=800)
     summ = [c for c in cases if c["kind"] == "summary"][0]
     dist.update(summ["dist"])
